@@ -489,7 +489,7 @@ def run(ctx):
     ]
     rng = ctx.rng
     thorough = ctx.tier == 'thorough'
-    n_ml, n_mal, n_re, n_kv, n_kp, n_gen = (6000, 600, 800, 2500, 1200, 400) if thorough else (600, 60, 100, 300, 150, 60)
+    n_ml, n_mal, n_re, n_kv, n_kp, n_gen = (4000, 400, 600, 2000, 1000, 300) if thorough else (600, 60, 100, 300, 150, 60)
     cases = []
     # the two inputs of DESIGN.md section 5 first
     cases.append({'kind': 'ml', 'bs': [[2, 2]] * 4, 'bidx': [[[0, 0], [1, 1]], [[0, 1], [1, 0]], [[0, 0]], [[0, 0]]],
@@ -619,7 +619,7 @@ META = {
                   '(asmatrix_spec); compute_sparsity_ij on monotone support arrays is exactly the set of overlapping support pairs '
                   '(sparsity_ij_spec). Not theorems (tie + oracle only): reorder of levels, kron_partial values, get_transpose_idx_for_bidx. '
                   'The model (repaired behaviour for three defects, fixes/C15-*.patch) is tied to /repo on every run by exact comparison '
-                  'of 13 observables per structure on ~650 random structures (thorough ~6600) of 1..6 levels plus reindexing tables, '
+                  'of 13 observables per structure on ~650 random structures (thorough ~4400) of 1..6 levels plus reindexing tables, '
                   'knot-vector pairs (same/nested/unrelated meshes, degrees 0..4, repeated knots), partial Kronecker products and pattern '
                   'generators, evaluated by vm_compute; and the property is evaluated directly on the implementation with a plain-Python '
                   'dense Kronecker oracle, exhaustively over all 0/1 patterns of 2x2/2x3/3x2/3x3 blocks for one and two levels '
